@@ -66,6 +66,25 @@ ENGINES['epipe'] = {
               'application side: mock source, mock sinks (accept / reject flow definitions, lodge requests), recording probes'],
 }
 
+ENGINES['estream'] = {
+    'src': ['harness/estream.c'],
+    'sim_src': ['sim/alloc.c', 'sim/umem_sim.c'],
+    'inc_first': ['shim'],
+    'repo_src': ['lib/upipe/ubuf_block_mem.c', 'lib/upipe/ubuf_mem_common.c', 'lib/upipe/ubuf_pic_mem.c',
+                 'lib/upipe/ubuf_pic_common.c', 'lib/upipe/ubuf_sound_mem.c', 'lib/upipe/ubuf_sound_common.c',
+                 'lib/upipe/ubuf_mem.c', 'lib/upipe/ubuf_pic.c', 'lib/upipe/uref_pic_flow.c',
+                 'lib/upipe/udict_inline.c', 'lib/upipe/uref_std.c', 'lib/upipe/uprobe.c',
+                 'lib/upipe-modules/upipe_aggregate.c', 'lib/upipe-modules/upipe_chunk_stream.c',
+                 'lib/upipe-ts/upipe_ts_sync.c', 'lib/upipe-ts/upipe_ts_check.c'],
+    'track_alloc': True,
+    'real': ['lib/upipe-modules/upipe_aggregate.c', 'lib/upipe-modules/upipe_chunk_stream.c', 'lib/upipe-ts/upipe_ts_sync.c',
+             'lib/upipe-ts/upipe_ts_check.c', 'include/upipe/upipe_helper_uref_stream.h', 'include/upipe/upipe_helper_output_size.h',
+             'include/upipe/ubuf_block.h', 'lib/upipe/ubuf_block_mem.c', 'lib/upipe/uref_std.c'],
+    'stubs': ['transport that cuts the byte stream into buffers (seeded fragmentation, segmentation, discontinuities)',
+              'allocator (umem_sim + malloc layer with injected failures)', 'mock sink collecting the units',
+              'bitstream/mpeg/ts.h replaced by shim/bitstream/mpeg/ts.h (TS_SIZE only is used here)'],
+}
+
 SC = ('interleavings are explored under sequential consistency at the yield points of DESIGN.md 2.1 '
       '(every uatomic operation, every plain ring-element access, every descriptor read/write)')
 
@@ -157,7 +176,23 @@ PROPS['C12'] = {'engine': 'epipe', 'quick_time': 30, 'thorough_time': 600,
              'teardown with requests still registered or unregistered first. Distinct = distinct plan hash.'),
     'assumptions': ['in-thread chains only: the cross-queue part of C12 is not covered by this check',
                     'request types exercised: sink latency and flow format']}
+PROPS['C20']['engines'] = ['epipe', 'estream']
+PROPS['C20']['rule'] += (' Second engine (estream): the size / mtu+align / sync-count options of aggregate, chunk_stream, ts_sync, ts_check set in mid-stream '
+                        'with allocation failures inside the setter, getters at random instants.')
 PROPS['C20']['assumptions'].append('getter side effects are decided by a differential run: the same plan is executed with and without its getter calls (same choices) and the histories seen by sinks and probes must be identical')
+
+PROPS['C14'] = {
+    'engine': 'estream', 'quick_time': 30, 'thorough_time': 600,
+    'rule': ('one case = (pipe in {aggregate, chunk_stream, ts_sync, ts_check}, configuration: output size / mtu+align / sync count, a generated byte '
+             'stream - for TS: aligned packets, garbage, sync octets inside payloads at packet distance - and a fragmentation schedule: 3-24 buffers that are '
+             'empty, one octet, exactly / almost / several units long, segmented into up to 3 segments, with discontinuity flags, option changes and getters in '
+             'between, allocation faults attached to buffers), released at that point of the stream; stream parsers are then replayed under 3 further '
+             'fragmentation schedules of the same octets. Distinct = distinct plan hash.'),
+    'assumptions': ['one simulated thread; nondeterminism = how the transport cuts the stream, when the application changes options or lets go, allocator failures',
+                    'ts_align (a bin choosing ts_sync / ts_check / idem by flow definition) is not driven directly',
+                    'after an injected allocation failure only lifecycle and leak oracles stay armed',
+                    'termination of release is decided by the driver watchdog (a run that does not come back is reproduced in a fresh process and reported as class hang)'],
+}
 
 TECH = 'deterministic simulation with fault injection: seeded search over schedules / fault sequences, reference-model oracle, minimised replay files'
 
@@ -196,7 +231,13 @@ PROPS['C12'].update({
     'level_note': 'sampling, not enumeration; in-thread chains only; trusted base = sim/*, harness/epipe.c, harness/epipe_req.c',
     'design_ref': 'DESIGN.md section 5, C12'})
 
+PROPS['C14'].update({
+    'technique': 'deterministic simulation with fault injection: a simulated transport cuts generated byte streams into buffers (seeded fragmentation, segmentation, discontinuities, release at any point, allocation failures); reference parsers and byte-conservation oracles; the same stream replayed under other fragmentation schedules; minimised replay files',
+    'level_note': 'sampling, not enumeration; trusted base = sim/*, the reference parsers in harness/estream.c, two constants of the bitstream shim',
+    'design_ref': 'DESIGN.md section 5, C14'})
+
 LEVEL_TEXT = {
+    'C14': 'Seeded byte streams and fragmentation schedules through the real aggregate, chunk_stream, ts_sync and ts_check pipes: outputs are the accepted input octets in order, unit sizes respect the configuration, TS units match a reference parser and start with the sync octet, stream parsers give the same units however the stream is cut, release terminates and leaves nothing allocated. Evidence, not proof.',
     'C12': 'Seeded request histories over chains of real pipes built on upipe_helper_output: after every operation each registered request is lodged exactly once at the terminal the chain currently leads to and nowhere else, answers reach the original requester once with the value given, nothing calls back after unregister or after the chain is released. In-thread only. Evidence, not proof.',
     'C01': 'Seeded pipeline histories biased towards lifetime edges (re-plumbing to NULL, release in mid-run, teardown orders, allocation failures): every pipe throws dead exactly once, sinks are never destroyed while referenced by the application, all managers and probes return to one reference, nothing stays allocated. Evidence, not proof.',
     'C04': 'Seeded pipeline histories: ready first, dead exactly once and last, no event/data/flow definition after dead; every buffer reaches a sink under an accepted flow definition equal to the one in force (reference model and upstream getter), none after a rejection. Evidence, not proof.',
@@ -214,7 +255,7 @@ LEVEL_TEXT = {
 NOT_YET = 'not claimed yet: engine under construction (DESIGN.md section 10)'
 NOT_APPLICABLE = {
     'C06': NOT_YET,
-    'C12': NOT_YET, 'C14': NOT_YET, 'C15': NOT_YET, 'C16': NOT_YET,
+    'C12': NOT_YET, 'C15': NOT_YET, 'C16': NOT_YET,
     'C11': 'pure arithmetic on eight integer fields of one uref: no schedule, clock, fault or second party for a simulator to vary (DESIGN.md section 6)',
     'C17': 'NAL conversion / exp-Golomb are pure functions of their input; the framers need bitstream h264/h265 headers that are absent from the sandbox (DESIGN.md section 6)',
     'C18': 'bit writer/readers are pure functions of (fields, buffer size, segmentation); nothing blocks, allocates, times out or is shared (DESIGN.md section 6)',
